@@ -597,3 +597,13 @@ PROPS['C19'] = dict(
     assumptions=['TLC; CVM.tla as transcription of the property and of distinct.go (coin with P(keep)=2^-k, halving passes)',
                  'hooks (build overlay): scripted random source, read access to k and the buffer; without them only the public observations are checked',
                  'the convergence-of-the-mean clause is a statistical test of real-entropy runs against the expectation proved on the model (7 standard errors)'])
+
+# --------------------------------------------------------------------------
+# C20 mbits, mstr
+PROPS['C20'] = dict(
+    mc=[dict(module='BytesMC', cfg=('BytesMC_q.cfg', 'BytesMC_t.cfg'), emit=True, workers=8),
+        dict(module='StrMC', cfg=('StrMC_q.cfg', 'StrMC_t.cfg'), emit=True, workers=8)],
+    trace=dict(module='BytesTrace', cfg='BytesTrace.cfg', stack='512m', heap='6g'),
+    assumptions=['TLC; Bytes.tla: byte-by-byte definitions, Trunc postconditions, preorder laws; transcription of the word-at-a-time loops of mbits.go with their access sets',
+                 'out-of-bounds WRITES are seen through guard bytes in the recorded memory images; out-of-bounds READS through PROT_NONE pages on either side of the slice (a fault is recorded as a panic) - an observation instrument outside TLC',
+                 'exhaustive over all zero patterns up to the length bound at all 8 alignments, all strings of up to 3 (quick) / 4 (thorough) units at every cut point, the full 259 x 259 CompareNatural table; seeded random beyond'])
